@@ -187,7 +187,7 @@ package messagequeue
 //@ func MessageQueue.attemptSendAndRecovery
 //@   lenient
 //@   requires buildersOK(mq) && mq.sender != nil
-//@   modifies mq.sender, mq.builders, Builder.responseStreams, Builder.subscribers, Builder.blockData, alloc, relBytes, relCalls, nFinal,
+//@   modifies mq.sender, mq.builders, Builder.responseStreams, Builder.subscribers, Builder.blockData, alloc, relBytes, relCalls, nFinal, workTok,
 //@            allmaps("map[graphsync.RequestID]io.Closer"), allmaps("map[graphsync.RequestID]notifications.Subscriber"), allmaps("map[graphsync.RequestID][]graphsync.BlockData"),
 //@            gsmsg.Builder.blkSize, gsmsg.Builder.outgoingBlocks, allmaps("map[graphsync.RequestID]graphsync.ResponseStatusCode"),
 //@            allmaps("map[graphsync.RequestID][]graphsync.ExtensionData"), allmaps("map[graphsync.RequestID][]gsmsg.GraphSyncLinkMetadatum")
@@ -200,7 +200,7 @@ package messagequeue
 //@ func MessageQueue.sendMessage
 //@   lenient
 //@   requires buildersOK(mq)
-//@   modifies mq.sender, mq.builders, Builder.responseStreams, Builder.subscribers, Builder.blockData, alloc, relBytes, relCalls, nFinal,
+//@   modifies mq.sender, mq.builders, Builder.responseStreams, Builder.subscribers, Builder.blockData, alloc, relBytes, relCalls, nFinal, workTok,
 //@            allmaps("map[graphsync.RequestID]io.Closer"), allmaps("map[graphsync.RequestID]notifications.Subscriber"), allmaps("map[graphsync.RequestID][]graphsync.BlockData"),
 //@            gsmsg.Builder.blkSize, gsmsg.Builder.outgoingBlocks, allmaps("map[graphsync.RequestID]graphsync.ResponseStatusCode"),
 //@            allmaps("map[graphsync.RequestID][]graphsync.ExtensionData"), allmaps("map[graphsync.RequestID][]gsmsg.GraphSyncLinkMetadatum")
@@ -221,7 +221,7 @@ package messagequeue
 //@   lenient
 //@   safety off
 //@   requires buildersOK(mq)
-//@   modifies mq.sender, mq.builders, Builder.responseStreams, Builder.subscribers, Builder.blockData, alloc, relBytes, relCalls, nFinal,
+//@   modifies mq.sender, mq.builders, Builder.responseStreams, Builder.subscribers, Builder.blockData, alloc, relBytes, relCalls, nFinal, workTok,
 //@            allmaps("map[graphsync.RequestID]io.Closer"), allmaps("map[graphsync.RequestID]notifications.Subscriber"), allmaps("map[graphsync.RequestID][]graphsync.BlockData"),
 //@            gsmsg.Builder.blkSize, gsmsg.Builder.outgoingBlocks, allmaps("map[graphsync.RequestID]graphsync.ResponseStatusCode"),
 //@            allmaps("map[graphsync.RequestID][]graphsync.ExtensionData"), allmaps("map[graphsync.RequestID][]gsmsg.GraphSyncLinkMetadatum")
